@@ -28,7 +28,10 @@ pub struct TypeAggregator {
     /// A map from foreign type to remapped local type.
     remapped: HashMap<Type, Type>,
     /// A map of interface names to remapped interface id.
-    interfaces: HashMap<String, InterfaceId>,
+    ///
+    /// Insertion-ordered: `find_semver_compatible_interface` returns the first
+    /// match in iteration order, which must not depend on the hash seed.
+    interfaces: IndexMap<String, InterfaceId>,
     /// Maps import names that were superseded by a higher semver-compatible
     /// version to the canonical (highest version) name.
     name_redirects: HashMap<String, String>,
